@@ -11,6 +11,7 @@
    the emission counter, so two separate emissions are two different entries. *)
 From Coq Require Import List ZArith.
 From Goloop Require Import Model_ConsensusNode Proofs_ConsensusNode.
+From Goloop Require Import Link_C02.
 Open Scope Z_scope.
 
 Theorem C02_no_double_vote :
@@ -45,3 +46,37 @@ Theorem C02_position_covers_wal :
     pos_le (v_round v, mcode (v_type v)) (pos (run_evs n own blocks evs)).
 Proof. exact position_covers_wal. Qed.
 Print Assumptions C02_position_covers_wal.
+
+(* ---- kernel links (Link_C02.v).  isValidTransition, getProposerIndex,
+   hasOverTwoThirds and overTwoThirdsDecision are re-generated from consensus/consensus.go,
+   step.go and voteset.go on every run (tools/go2coq); the step guard, the proposer
+   rotation and the +2/3 tests of the engine model, used in all theorems above, ARE the
+   decisions of the current Go code (step_z: the iota values of step.go; n <= 2^62-1
+   validators; height+round inside int64) ---- *)
+Theorem C02_kernel_isValidTransition : forall from to : step,
+  valid_transition from to = isValidTransition (step_z from) (step_z to).
+Proof. exact valid_transition_is_isValidTransition. Qed.
+Print Assumptions C02_kernel_isValidTransition.
+
+Theorem C02_kernel_getProposerIndex : forall (n : nat) (r : Z),
+  0 <= r -> 1 + r <= 9223372036854775807 -> 0 < Z.of_nat n <= 9223372036854775807 ->
+  proposer n r = getProposerIndex 1 r (Z.of_nat n).
+Proof. exact proposer_is_getProposerIndex. Qed.
+Print Assumptions C02_kernel_getProposerIndex.
+
+Theorem C02_kernel_hasOverTwoThirds : forall vs : vset,
+  Z.of_nat (length vs) <= 4611686018427387903 ->
+  vs_has23 vs = hasOverTwoThirds (Z.of_nat (vs_count vs)) (Z.of_nat (length vs)).
+Proof. exact vs_has23_is_hasOverTwoThirds. Qed.
+Print Assumptions C02_kernel_hasOverTwoThirds.
+
+Theorem C02_kernel_overTwoThirdsDecision : forall (vs : vset) (d : option N),
+  Z.of_nat (length vs) <= 4611686018427387903 ->
+  over23 (vs_count_dec vs d) (length vs)
+  = overTwoThirdsDecision (Z.of_nat (vs_count_dec vs d)) (Z.of_nat (length vs)).
+Proof. exact vs_over23_test_is_overTwoThirdsDecision. Qed.
+Print Assumptions C02_kernel_overTwoThirdsDecision.
+
+Theorem C02_kernel_params : Link_C02.kernel_params_pinned.
+Proof. exact Link_C02.kernel_params_ok. Qed.
+Print Assumptions C02_kernel_params.
